@@ -19,26 +19,28 @@ LendOpts ==     \* <<user, asset, pool, amount>>
   CASE Profile = "same"  -> {<<"u1", 1, 1, 20>>, <<"u2", 1, 1, 10>>}
     [] Profile = "cross" -> {<<"u1", 1, 1, 20>>, <<"u2", 4, 2, 20>>}
     [] Profile = "multi" -> {<<"u1", 1, 1, 20>>, <<"u1", 2, 1, 20>>}
+    [] Profile = "twopool" -> {<<"u1", 2, 1, 20>>, <<"u1", 2, 2, 20>>}     \* the same asset (one cToken denom) lent into both pools
     [] OTHER -> {<<"u1", 1, 1, 20>>}
 BorrowOpts ==   \* <<pair, cin, loan, stable>>   (exact LTV boundary of pair 1 at price 1: 10 * 7/10 = 7; pair 5 (bridged): 10*7/10*8/10 -> 5)
   CASE Profile = "same"  -> {<<1, 10, 6, FALSE>>, <<1, 10, 7, FALSE>>, <<1, 10, 8, FALSE>>}
     [] Profile = "cross" -> {<<5, 10, 5, FALSE>>, <<5, 10, 6, FALSE>>, <<10, 10, 4, FALSE>>, <<10, 10, 5, TRUE>>}
     [] Profile = "multi" -> {<<1, 10, 7, FALSE>>, <<2, 10, 7, FALSE>>, <<3, 10, 8, TRUE>>, <<11, 10, 9, FALSE>>, <<11, 10, 10, FALSE>>, <<3, 10, 5, FALSE>>}
+    [] Profile = "twopool" -> {<<3, 20, 16, FALSE>>, <<3, 10, 8, TRUE>>, <<9, 10, 8, FALSE>>, <<9, 10, 9, FALSE>>}
     [] OTHER -> {<<1, 10, 7, FALSE>>}
 AltOpts ==      \* <<user, asset, pool, cin, pair, loan>>
   CASE Profile = "cross" -> {<<"u2", 1, 1, 10, 5, 5>>}
     [] Profile = "multi" -> {<<"u2", 1, 1, 10, 1, 7>>, <<"u1", 1, 1, 10, 2, 8>>}
     [] OTHER -> {}
-DrawAmts == IF Profile = "multi" THEN {1} ELSE {1, 2}
-RepayAmts == IF Profile = "multi" THEN {2} ELSE {1, 7}
+DrawAmts == IF Profile \in {"multi", "twopool"} THEN {1} ELSE {1, 2}
+RepayAmts == IF Profile \in {"multi", "twopool"} THEN {2} ELSE {1, 7}
 DepBorrowAmts == {5}
 DepositAmts == IF Profile = "same" THEN {10} ELSE {}
-WithdrawAmts == IF Profile = "multi" THEN {10} ELSE {5, 10}
+WithdrawAmts == IF Profile \in {"multi", "twopool"} THEN {10} ELSE {5, 10}
 AccrueAmts == {1}
 PriceOpts == CASE Profile = "same" -> {<<1, 2>>, <<1, 1>>, <<2, 2>>}      \* <<asset, price in pu>>
                [] Profile = "cross" -> {<<1, 2>>, <<1, 1>>}
                [] OTHER -> {}
-Foreign == Profile # "multi"      \* also let the other user try every position
+Foreign == Profile \notin {"multi", "twopool"}      \* also let the other user try every position
 
 Out(a, args, res) ==
   IF Emit THEN PrintT(<<"T", ToJson([a |-> a, args |-> args, pre |-> st, ok |-> res.ok])>>) ELSE TRUE
